@@ -312,6 +312,11 @@ TABLE_STUBS = "\n".join("#[kani::stub(crate::chess::movegen::tables::%s, crate::
     ("knights::knight_attacks", "knight_attacks"), ("king::king_attacks", "king_attacks"),
     ("pawns::pawn_attacks", "pawn_attacks"), ("between::between", "between")])
 
+INDICATOR_STUBS = "\n".join("#[kani::stub(%s, crate::verif_support::indicator::%s)]" % (a, b) for a, b in [
+    ("crate::chess::zobrist::piece_on_square", "piece_on_square"), ("crate::chess::zobrist::castle_rights", "castle_rights"),
+    ("crate::chess::zobrist::en_passant", "en_passant"), ("crate::chess::zobrist::side_to_play", "side_to_play"),
+    ("crate::engine::eval::piece_square_tables::piece_contributions", "piece_contributions")])
+
 BODY_RE = re.compile(r"^[ \t]*//@@\s*body\s*:\s*(\S+)\s*::\s*(.*?)\s*=>\s*(\w+)\s*(.*)$", re.M)
 
 
@@ -341,6 +346,7 @@ def expand_bodies(text, root, record):
         return prefix + new
 
     text = re.sub(r"^[ \t]*//@@stubs-tables[ \t]*$", TABLE_STUBS, text, flags=re.M)
+    text = re.sub(r"^[ \t]*//@@stubs-indicator[ \t]*$", INDICATOR_STUBS, text, flags=re.M)
     return BODY_RE.sub(repl, text)
 
 
@@ -482,9 +488,14 @@ def parse_kani_log(text):
     m = re.search(r"^Verification Time: ([0-9.]+)s", text, re.M)
     if m:
         r["verification_time"] = float(m.group(1))
-    m = re.search(r"Concrete playback unit test for `[^`]*`:\n```\n(.*?)```", text, re.S)
-    if m:
-        r["playback"] = m.group(1)
+    blocks = re.findall(r"Concrete playback unit test for `[^`]*`:\n```\n(.*?)```", text, re.S)
+    # Kani prints one playback test per failing check and per satisfied cover: keep the first one that belongs to a
+    # failing (non-cover) check
+    non_cover = [b for b in blocks if not re.search(r"Check for `cover`", b)]
+    if non_cover:
+        r["playback"] = non_cover[0]
+    elif blocks and False:
+        r["playback"] = blocks[0]
     r["stubs"] = re.findall(r"^\s*- Stub: (.*)$", text, re.M)
     m = re.search(r"Runtime Symex: ([0-9.]+)s", text)
     return r
